@@ -170,7 +170,7 @@ Section Registry.
 
   (* the collection threshold after a removal / a sweep: tuning, notation generated from the
      source (pinned tree: gc->mitems = gc->nitems + gc->nitems / 2 + 1) *)
-  Definition new_mitems (g : gc) : gc := set_mitems g (gc_mitems_rule (nitems g)).
+  Definition new_mitems (g : gc) : gc := set_mitems g (gc_reg_mitems_rule (nitems g)).
 
   (* GC_Mem_Ptr *)
   Definition gc_mem (g : gc) (p : N) : option bool :=
